@@ -1,6 +1,7 @@
 package main
 
 import (
+	"os"
 	"strings"
 
 	"github.com/yaricom/goNEAT/v4/neat"
@@ -46,3 +47,11 @@ func readPlain(src string, id int) *genetics.Genome {
 }
 
 func quiet() { neat.LogLevel = neat.LogLevelError }
+
+// repoRoot is /repo unless a development override is set (see check)
+func repoRoot() string {
+	if v := os.Getenv("VERIF_REPO"); v != "" {
+		return v
+	}
+	return "/repo"
+}
